@@ -37,8 +37,6 @@ func New(numWorkers ...int) *Worker {
 	return w
 }
 
-const ln3 = 1.098612288668109691395245236922525704647490557822749451734694333 // https://oeis.org/A002391
-
 // Mine performs the PoW for data.
 // It returns a nonce that appended to data results in a PoW score of at least targetScore.
 // The computation can be canceled anytime using ctx.
@@ -67,7 +65,7 @@ func (w *Worker) Mine(ctx context.Context, data []byte, targetScore float64) (ui
 	}()
 
 	// compute the minimum numbers of trailing zeros required to get a PoW score ≥ targetScore
-	targetZeros := uint(math.Ceil(math.Log(float64(len(data)+nonceBytes)*targetScore) / ln3))
+	targetZeros := requiredTrailingZeros(len(data)+nonceBytes, targetScore)
 
 	workerWidth := math.MaxUint64 / uint64(w.numWorkers)
 	for i := 0; i < w.numWorkers; i++ {
@@ -93,6 +91,20 @@ func (w *Worker) Mine(ctx context.Context, data []byte, targetScore float64) (ui
 		return 0, ErrCancelled
 	}
 	return nonce, nil
+}
+
+// requiredTrailingZeros returns the smallest number of trailing zeros for which the score of a message of the
+// given length, computed exactly as in Score, is at least targetScore.
+// Evaluating the same floating point expression as Score avoids rounding differences at the boundaries
+// and yields zero for any target that every hash satisfies.
+func requiredTrailingZeros(msgLen int, targetScore float64) uint {
+	for zeros := 0; zeros <= consts.HashTrinarySize; zeros++ {
+		if math.Pow(consts.TrinaryRadix, float64(zeros))/float64(msgLen) >= targetScore {
+			return uint(zeros)
+		}
+	}
+	// the target cannot be reached by any hash
+	return consts.HashTrinarySize + 1
 }
 
 func (w *Worker) worker(powDigest []byte, startNonce uint64, target uint, done *uint32, counter *uint64) (uint64, error) {
